@@ -261,6 +261,8 @@ fn main() {
 				runs.push((v2, "C", seqlen.min(3), full.clone()));
 			}
 		}
+		// cheapest runs first, so that a wall cap cuts the biggest enumeration rather than a store version
+		runs.sort_by_key(|(v2, _, len, alpha)| ((alpha.len() as u64).pow(*len as u32), *v2));
 		let seq_deadline = if thorough { t_start + Duration::from_secs(cap * 2 / 5) } else { t_start + Duration::from_secs(20) };
 		let mut jr = Vec::new();
 		let mut total = seq::SeqStats::default();
